@@ -68,6 +68,10 @@ def step (_ : Unit) (line : String) : Unit × String :=
         | .ok (o, ds) => s!"ok {o} {showIntsE ds}"
         | .error e => "ERR:" ++ e.toString
       | _, _ => "bad-op"
+    | ["delta_enc_o", t, o, xs] =>
+      match DType.ofString? t, o.toInt?, parseInts xs with
+      | some t, some o, some xs => "ok " ++ showIntsE (deltaEncodeWith t o xs)
+      | _, _, _ => "bad-op"
     | ["delta_dec", t, o, xs] =>
       match DType.ofString? t, o.toInt?, parseInts xs with
       | some t, some o, some xs => "ok " ++ showIntsE (deltaDecode t o xs)
@@ -81,6 +85,12 @@ def step (_ : Unit) (line : String) : Unit × String :=
         | some r => showE r
         | none => "unmodelled"
       | _, _, _ => "bad-op"
+    | ["pack_enc_w", bc, u, _t, xs] =>
+      match bc.toNat?, parseInts xs with
+      | some bc, some xs =>
+        let u := if u == "u" then some true else if u == "s" then some false else none
+        showE (packEncodeWide bc u xs)
+      | _, _ => "bad-op"
     | ["pack_dec", pt, n, xs] =>
       match DType.ofString? pt, n.toNat?, parseInts xs with
       | some pt, some n, some xs => showE (packDecode pt n xs)
